@@ -254,6 +254,8 @@ class FloatRange(HasUnit, DataType):
                 value = float(value)
             except Exception:
                 raise WrongTypeError(f'can not convert {shortrepr(value)} to a float') from None
+        if value != value:
+            raise WrongTypeError('NaN is not a valid float value')
 
         # map +/-infty to +/-max possible number
         return clamp(-sys.float_info.max, value, sys.float_info.max)
